@@ -1,5 +1,6 @@
 import ShroudVerif.Lemmas.Scope
 import ShroudVerif.Gen.Cli
+import ShroudVerif.Gen.OptReads
 /-!
 # C14  Equivalent ways of stating the same customisation give identical output
 
@@ -568,5 +569,40 @@ theorem config_no_shared_state :
     configClassMutable = [] ∧
     (∀ n ∈ ["cfiles".toList, "ffiles".toList, "pyfiles".toList, "fc_shared_helpers".toList],
       (n.map Char.toNat) ∈ configInitAttrs) := by decide
+
+/-! ### which scope do the consumers read from? (regenerated table of every syntactic read) -/
+
+/-- Library-level reads of a function-scoped option that are nevertheless
+    right, as (option name, `file:Class.function`).  Empty: on the current
+    tree no function-scoped option or format field is read through a
+    library-level owner expression at all (file-level reads such as the
+    doxygen file header go through the generic `node` of the file being
+    written, not through `self.newlibrary`).  An entry added here must say
+    why the value cannot differ between the functions of the library. -/
+def allowedLibraryReads : List (List Nat × List Nat) := []
+
+open Shroud.Gen.OptReads in
+def readOk (fs : List Nat) (r : Nat × Owner × Nat) : Bool :=
+  !(r.2.1 == Owner.library && fs.contains r.1)
+    || allowedLibraryReads.contains (names.getD r.1 [], sites.getD r.2.2 [])
+
+open Shroud.Gen.OptReads in
+/-- **every consumer reads function-scoped settings from the function's
+    scope chain** (static part).  In the regenerated table of all option /
+    format reads of `shroud/*.py` (attribute, subscript, `.get`, through local
+    aliases, through `eval_template` and through parameters such as
+    `WrapFlags(options)`), no option of the function-scoped set -- and no
+    format field of that set that is read explicitly -- is read through a
+    library-level owner expression (`self.newlibrary.options`,
+    `library.options`, `self.options` inside `LibraryNode`, ...) outside the
+    allow list.  Format fields consumed through template strings are not in
+    the table; they are covered by the output oracle only. -/
+theorem function_scoped_not_read_at_library_level :
+    (∀ r ∈ optionReads, readOk functionScopedOptions r = true) ∧
+    (∀ r ∈ formatReads, readOk functionScopedFormats r = true) ∧
+    functionScopedOptions ≠ [] ∧
+    (∃ r ∈ optionReads, r.2.1 = Owner.library) ∧
+    (∃ r ∈ optionReads, r.2.1 = Owner.node ∧ functionScopedOptions.contains r.1 = true) := by
+  decide +kernel
 
 end Shroud.Scope
